@@ -684,3 +684,6 @@ def text_numbers(ctx):
 
 from . import c19 as _c19
 PROP.obligation('C18.attr-memos')(_c19.attr_memos)
+
+
+PROP.obligation('C18.small-int-opcodes')(_c19.dispatch)
